@@ -217,9 +217,10 @@ def kwargs_of(case, printitn=0):
     if alg == "mu":
         kw.update(kappa=o["kappa"], kappatol=o["kappatol"])
     elif alg == "pdnr":
-        kw.update(precompinds=o["precompinds"], inexact=o["inexact"])
+        kw.update(precompinds=o["precompinds"], inexact=o["inexact"], epsActive=o.get("epsActive", 1e-8),
+                  mu0=o.get("mu0", 1e-5))
     else:
-        kw.update(precompinds=o["precompinds"], lbfgsMem=o["lbfgsMem"])
+        kw.update(precompinds=o["precompinds"], lbfgsMem=o["lbfgsMem"], epsActive=o.get("epsActive", 1e-8))
     return kw
 
 
@@ -265,7 +266,7 @@ TIE = 1e-9
 
 
 @contextlib.contextmanager
-def recording(alg, rec, calls=None):
+def recording(alg, rec, calls=None, margins=True):
     orig = C.tt_linesearch_prowsubprob
     primed = set()
 
@@ -277,23 +278,28 @@ def recording(alg, rec, calls=None):
         R = int(m_old.shape[0])
         d = np.asarray(direction, dtype=float)
         d = np.full(R, float(d)) if d.ndim == 0 else np.array(np.broadcast_to(d.reshape(-1), (R,)))
-        if alg == "pqnr" and key[3] == 0 and key not in primed:
+        prime = alg == "pqnr" and key[3] == 0 and key not in primed
+        if prime:
             primed.add(key)  # the gradient step that primes L-BFGS: the model computes it itself
         else:
             rec.append({"it": key[0], "n": key[1], "jj": key[2], "i": key[3], "d": bd(d.tolist())})
+        if calls is not None:
+            # noted BEFORE the call returns: a call that raises is still the last one of its row
+            calls.append({"key": key, "prime": prime, "sparse": bool(isSparse),
+                          "x": np.array(data_row, dtype=float).reshape(-1).tolist(),
+                          "Pi": np.array(Pi, dtype=float).tolist(), "m": m_old.tolist(), "d": d.tolist(),
+                          "grad": np.array(grad, dtype=float).reshape(-1).tolist(),
+                          "phi": np.array(phi_row, dtype=float).reshape(-1).tolist(), "out": None,
+                          "margin": math.inf, "evals": 0, "fallback": False})
         res = orig(direction, grad, model_old, step_len, step_red, max_steps, suff_decr, isSparse, data_row, Pi,
                    phi_row, display_warning)
         if calls is not None:
-            calls.append({"margin": ls_margin(d, grad, m_old, isSparse, data_row, Pi),
-                          "sparse": bool(isSparse), "x": np.array(data_row, dtype=float).reshape(-1).tolist(),
-                          "Pi": np.array(Pi, dtype=float).tolist(), "m": m_old.tolist(), "d": d.tolist(),
-                          "grad": np.array(grad, dtype=float).reshape(-1).tolist(),
-                          "phi": np.array(phi_row, dtype=float).reshape(-1).tolist(),
-                          "out": np.array(res[0], dtype=float).reshape(-1).tolist(),
-                          "evals": int(res[4]),
-                          "fallback": bool(np.array_equal(
-                              np.array(res[0], dtype=float).reshape(-1),
-                              (lambda t: t * (t > 0))(m_old * np.array(phi_row, dtype=float).reshape(-1))))})
+            calls[-1].update({"margin": ls_margin(d, grad, m_old, isSparse, data_row, Pi) if margins else math.inf,
+                              "out": np.array(res[0], dtype=float).reshape(-1).tolist(),
+                              "evals": int(res[4]),
+                              "fallback": bool(np.array_equal(
+                                  np.array(res[0], dtype=float).reshape(-1),
+                                  (lambda t: t * (t > 0))(m_old * np.array(phi_row, dtype=float).reshape(-1))))})
         return res
 
     C.tt_linesearch_prowsubprob = wrap
@@ -351,7 +357,75 @@ def safeguard_watch(flags):
         C.calculate_phi, C.calc_partials, C.calc_grad, ttb.ktensor.normalize = o_phi, o_par, o_grad, o_norm
 
 
-def run_impl(case, maxiters, printitn=0, record=True, flags=None):
+def row_grad_np(x, Pi, m, eps):
+    """Gradient of the row objective `sum(m) - sum_j x_j log (m . Pi_j)` with the code's clamp of the
+    denominators: `1 - (x / max(m Pi^T, eps)) Pi`, plain numpy."""
+    x = np.asarray(x, dtype=float).reshape(-1)
+    Pi = np.asarray(Pi, dtype=float).reshape(len(x), -1)
+    m = np.asarray(m, dtype=float).reshape(-1)
+    with np.errstate(all="ignore"):
+        return 1.0 - (x / np.maximum(m.dot(Pi.T), eps)).dot(Pi)
+
+
+def lbfgs_reference(row_calls, mem, eps):
+    """The slot bookkeeping of PQNR's L-BFGS memory as the finding F11-pqnr-lbfgs-assert describes it,
+    replayed on the iterates the implementation itself produced for ONE row (`row_calls`: the recorded line
+    searches of the row in order -- the priming gradient step, then one per inner iteration): pair `i` is
+    `(m_{i+1} - m_i, g(m_{i+1}) - g(m_i))`; a pair with a non-zero inner product is stored at the current
+    slot, a degenerate one rolls the slot back (to the last slot if that holds a positive curvature, and
+    is FATAL at slot 0 otherwise); then the slot advances by one modulo the memory size.
+    -> index of the pair at which the bookkeeping is fatal, or None."""
+    pos, rho = 0, [0.0] * mem
+    for idx, c in enumerate(row_calls):
+        if c["out"] is None:
+            return None
+        m_new, m_old = np.array(c["out"], dtype=float), np.array(c["m"], dtype=float)
+        with np.errstate(all="ignore"):
+            dot = float((m_new - m_old).dot(row_grad_np(c["x"], c["Pi"], m_new, eps)
+                                            - np.array(c["grad"], dtype=float)))
+        if dot != 0:
+            with np.errstate(all="ignore"):
+                rho[pos] = 1.0 / dot
+        elif pos == 0:
+            if rho[mem - 1] > 0:
+                pos = mem - 1
+            else:
+                return idx
+        else:
+            pos -= 1
+        pos = (pos + 1) % mem
+    return None
+
+
+def raised_verdict(case, res, calls, tags, where=""):
+    """Verdict for a call of cp_apr that RAISED on an admissible request (non-negative data with a stored
+    entry and >= 2 modes if dense, a non-negative guess of the data's shape and the requested rank, positive
+    limits): the property promises a model, so this is a violation whatever the exception.  The fatal
+    L-BFGS assertion of pqnr is the recorded finding F11-pqnr-lbfgs-assert ONLY where the reference
+    bookkeeping, run on the iterates of the row in which it was raised, is fatal at the same pair; raised
+    anywhere else it is reported under a different text (which the matcher of the finding does not accept)."""
+    msg = res.get("msg", "")
+    if case.get("alg") == "pqnr" and LBFGS_MSG in msg:
+        row = []
+        if calls:
+            k3 = calls[-1]["key"][:3]
+            row = [c for c in calls if c["key"][:3] == k3]
+        mem = int(case.get("opts", {}).get("lbfgsMem", 3))
+        eps = float(case.get("opts", {}).get("epsDivZero", 1e-10))
+        at = lbfgs_reference(row, mem, eps) if row else None
+        if row and at == len(row) - 1:
+            return Verdict("violation", f"pqnr raised instead of returning: {msg}{where}", res, None, None,
+                           list(tags) + ["lbfgs-assert"], False)
+        said = "is never fatal" if at is None else f"is fatal at pair {at}"
+        return Verdict("violation", f"pqnr hit its fatal L-BFGS assertion ({msg}){where} at pair {len(row) - 1} of row "
+                       f"{list(calls[-1]['key'][:3]) if calls else '?'} (outer iteration, mode, row), where the slot "
+                       f"bookkeeping replayed on the row's own iterates (memory {mem}) {said}", res, None,
+                       {"pairs": len(row), "reference_fatal_at": at}, list(tags) + ["lbfgs-assert-unjustified"], False)
+    return Verdict("violation", f"implementation raised {res.get('exc')}: {msg} on an admissible request (the "
+                   f"argument checks accept it){where}", res, None, None, list(tags) + ["raised"], False)
+
+
+def run_impl(case, maxiters, printitn=0, record=True, flags=None, margins=True):
     data = mk_data(case["data"])
     guess = mk_kt(case["init"])
     before = (snapshot(data), snapshot(guess))
@@ -359,7 +433,7 @@ def run_impl(case, maxiters, printitn=0, record=True, flags=None):
     if flags is not None and case["alg"] != "mu" and \
             any(np.any(np.sum(np.asarray(f), axis=1) == 0) for f in guess.factor_matrices):
         flags["zero_row"] = True
-    with (recording(case["alg"], rec, calls) if record else contextlib.nullcontext()), \
+    with (recording(case["alg"], rec, calls, margins) if record else contextlib.nullcontext()), \
             (safeguard_watch(flags) if flags is not None else contextlib.nullcontext()), quiet():
         res = call(lambda: ttb.cp_apr(data, case["rank"], algorithm=case["alg"], init=guess, maxiters=maxiters,
                                       **kwargs_of(case, printitn)))
@@ -592,10 +666,19 @@ def gen_guess(rng, shape, R):
     return {"weights": bd(w.tolist()), "factors": [bd(f.tolist()) for f in fm]}, tags
 
 
+EPS_ACTIVE = [1e-8, 1e-8, 1e-3, 1e-2, 1.0, 10.0]   # 1e-8 is the default; large values make almost every variable "active"
+MU0 = [1e-5, 1e-5, 1e-2, 1.0, 10.0]                  # 1e-5 is the default
+
+
 def gen_opts(rng):
-    return {"stoptol": rng.choice([1e-4, 1e-4, 1e-2, 1e-6]), "maxinneriters": rng.randint(1, 10),
-            "epsDivZero": 1e-10, "kappa": rng.choice([0.01, 0.01, 0.1]), "kappatol": 1e-10,
-            "precompinds": rng.random() < 0.5, "inexact": rng.random() < 0.5, "lbfgsMem": rng.randint(1, 5)}
+    o = {"stoptol": rng.choice([1e-4, 1e-4, 1e-2, 1e-6]), "maxinneriters": rng.randint(1, 10),
+         "epsDivZero": 1e-10, "kappa": rng.choice([0.01, 0.01, 0.1]), "kappatol": 1e-10,
+         "precompinds": rng.random() < 0.5, "inexact": rng.random() < 0.5, "lbfgsMem": rng.randint(1, 5)}
+    # options of the direction services only (the model takes the directions as given): the active-set
+    # tolerance of pdnr / pqnr and the initial damping of pdnr
+    o["epsActive"] = rng.choice(EPS_ACTIVE)
+    o["mu0"] = rng.choice(MU0)
+    return o
 
 
 class Runs(Family):
@@ -633,9 +716,13 @@ class Runs(Family):
                              "cfg": cfg_j(c, k), "dirs": rec})
                 where.append((ci, len(runs) - 1))
             impl.append(runs)
-        models = drive(reqs)
+        raised = [q for q, (ci, ri) in zip(reqs, where) if "ok" not in impl[ci][ri][1]]
+        models = drive(reqs + [{**q, "op": "c11_validate_float"} for q in raised])
+        admissible = iter(models[len(reqs):])
         per_case = [[] for _ in cases]
-        for (ci, _), m in zip(where, models):
+        for (ci, ri), m in zip(where, models[:len(reqs)]):
+            if "ok" not in impl[ci][ri][1]:
+                m = {**m, "admissible": bool(next(admissible).get("accept"))}
             per_case[ci].append(m)
         out = [self.judge(c, runs, ms) for c, runs, ms in zip(cases, impl, per_case)]
         # second phase: runs whose line searches were decided at rounding level are validated one
@@ -690,13 +777,11 @@ class Runs(Family):
                     return Verdict("violation", f"maxiters={k} printitn={p}: {what}", pres["ok"], None, res["ok"],
                                    tags + [f"printitn{p}"])
             if "ok" not in res:
-                msg = res.get("msg", "")
-                if c["alg"] == "pqnr" and LBFGS_MSG in msg:
-                    return Verdict("violation", f"pqnr raised instead of returning: {msg} (maxiters={k})",
-                                   res, m, None, tags + ["lbfgs-assert"], False)
-                if "ok" in m:
-                    return Verdict("violation", f"implementation raised {res.get('exc')}: {msg} on a valid "
-                                   f"request the model answers (maxiters={k})", res, None, None, tags, False)
+                # NOT decided by whether the model's run returns: its direction service is scripted with what the
+                # implementation used before it raised, so the model's run stops where the script ends.  Decided by
+                # the argument checks alone: an admissible request must be answered with a model
+                if "ok" in m or m.get("admissible"):
+                    return raised_verdict(c, res, calls, tags, f" (maxiters={k})")
                 return Verdict("ok", "", res, m, None, tags + ["reject"], False)
             r = res["ok"]
             what = property_violation(c, k, r, untouched)
@@ -972,60 +1057,84 @@ class Validation(Family):
     name = "validation"
     theorems = ("C11_rejects_invalid", "C11_rejects_negative_data", "C11_rejects_negative_guess")
 
+    MUTS = ["valid", "valid", "valid", "neg-data", "rank0", "rank-mismatch", "ndims-mismatch", "size-mismatch",
+            "neg-entry", "neg-weight", "one-way-dense", "one-way-sparse", "empty-sparse", "maxiters0",
+            "maxinner0", "bad-alg"]
+
     def gen(self, rng, tier):
         n = 112 if tier == "quick" else 640
-        out = []
-        muts = ["valid", "valid", "valid", "neg-data", "rank0", "rank-mismatch", "ndims-mismatch", "size-mismatch",
-                "neg-entry", "neg-weight", "one-way-dense", "one-way-sparse", "empty-sparse", "maxiters0",
-                "maxinner0", "bad-alg"]
-        for k in range(n):
-            mut = muts[k % len(muts)]
-            N = rng.choice([2, 3])
-            shape = [rng.randint(1, 3) for _ in range(N)]
-            if mut.startswith("one-way"):
-                shape = [rng.randint(2, 4)]
-            R = rng.randint(1, 2)
-            numel = int(np.prod(shape))
-            vals = [rng.choice([0, 1, 1, 2, 3]) for _ in range(numel)]
-            if not any(vals):
-                vals[rng.randrange(numel)] = 2
-            sparse = rng.random() < 0.5
-            if mut == "one-way-dense":
-                sparse = False
-            if mut in ("one-way-sparse", "empty-sparse"):
-                sparse = True
-            if mut == "neg-data":
-                vals[rng.randrange(numel)] = -rng.randint(1, 3)
-            w = [rng.choice([1, 1, 2]) for _ in range(R)]
-            fm = [[[rng.choice([0, 1, 1, 2]) for _ in range(R)] for _ in range(s)] for s in shape]
-            alg = rng.choice(ALGS)
-            c = {"mut": mut, "alg": alg, "shape": shape, "vals": vals, "sparse": sparse, "rank": R,
-                 "weights": w, "factors": fm, "maxiters": 1, "maxinner": rng.randint(1, 3),
-                 "printitn": k % 4}
-            if mut == "rank0":
-                c["rank"] = 0
-            elif mut == "rank-mismatch":
-                c["rank"] = R + 1
-            elif mut == "ndims-mismatch":
-                c["factors"] = fm[:-1] if rng.random() < 0.5 else fm + [[[1] * R]]
-            elif mut == "size-mismatch":
-                j = rng.randrange(N)
-                c["factors"][j] = fm[j] + [[1] * R]
-            elif mut == "neg-entry":
-                j = rng.randrange(N)
-                c["factors"][j][rng.randrange(shape[j])][rng.randrange(R)] = -1
-            elif mut == "neg-weight":
-                c["weights"][rng.randrange(R)] = -1
-            elif mut == "empty-sparse":
-                c["vals"] = [0] * numel
-            elif mut == "maxiters0":
-                c["maxiters"] = 0
-            elif mut == "maxinner0":
-                c["maxinner"] = 0
-            elif mut == "bad-alg":
-                c["alg"] = rng.choice(["als", "MU2", ""])
-            out.append(c)
+        # every kind of request meets every printing interval (the final report of a printing run does work of its
+        # own -- norm, innerprod -- that can refuse what the solver let through)
+        out = [self.one(rng, self.MUTS[k % len(self.MUTS)], (k + k // len(self.MUTS)) % 4) for k in range(n)]
+        # guesses whose extent differs from the data's in one mode, ENUMERATED over algorithm x representation x
+        # larger / smaller x first / last mode, silent (so nothing but the argument check and the solver decide), with
+        # one and with several outer iterations: the solvers index the guess by the data (a guess with surplus rows
+        # fits every subscript of sparse data), so only the argument check stands between such a request and a model
+        # of the wrong shape
+        for rep in range(1 if tier == "quick" else 4):
+            for alg in ALGS:
+                for sparse in (False, True):
+                    for how in ("larger", "smaller", "larger2"):
+                        for mode in ("first", "last", "mid"):
+                            c = self.one(rng, "size-mismatch", 0, alg=alg, sparse=sparse, how=how, mode=mode,
+                                         lo=2, N=3 if mode == "mid" else None)
+                            c["maxiters"] = rng.choice([1, 3])
+                            out.append(c)
         return out
+
+    def one(self, rng, mut, printitn, alg=None, sparse=None, how=None, mode=None, lo=1, N=None):
+        N = N or rng.choice([2, 3])
+        shape = [rng.randint(lo, 3) for _ in range(N)]
+        if mut.startswith("one-way"):
+            shape = [rng.randint(2, 4)]
+        R = rng.randint(1, 2)
+        numel = int(np.prod(shape))
+        vals = [rng.choice([0, 1, 1, 2, 3]) for _ in range(numel)]
+        if not any(vals):
+            vals[rng.randrange(numel)] = 2
+        if sparse is None:
+            sparse = rng.random() < 0.5
+        if mut == "one-way-dense":
+            sparse = False
+        if mut in ("one-way-sparse", "empty-sparse"):
+            sparse = True
+        if mut == "neg-data":
+            vals[rng.randrange(numel)] = -rng.randint(1, 3)
+        w = [rng.choice([1, 1, 2]) for _ in range(R)]
+        fm = [[[rng.choice([0, 1, 1, 2]) for _ in range(R)] for _ in range(s)] for s in shape]
+        c = {"mut": mut, "alg": alg or rng.choice(ALGS), "shape": shape, "vals": vals, "sparse": sparse, "rank": R,
+             "weights": w, "factors": fm, "maxiters": 1, "maxinner": rng.randint(1, 3),
+             "printitn": printitn}
+        if mut == "rank0":
+            c["rank"] = 0
+        elif mut == "rank-mismatch":
+            c["rank"] = R + 1
+        elif mut == "ndims-mismatch":
+            c["factors"] = fm[:-1] if rng.random() < 0.5 else fm + [[[1] * R]]
+        elif mut == "size-mismatch":
+            j = {"first": 0, "last": N - 1, "mid": N // 2}.get(mode, rng.randrange(N))
+            how = how or rng.choice(["larger", "larger", "larger2", "smaller"])
+            if how == "smaller" and shape[j] < 2:
+                how = "larger"
+            if how == "smaller":
+                c["factors"][j] = fm[j][:-1]
+            else:
+                c["factors"][j] = fm[j] + [[rng.choice([1, 2]) for _ in range(R)] for _ in range(1 if how == "larger" else 2)]
+            c["how"] = how
+        elif mut == "neg-entry":
+            j = rng.randrange(N)
+            c["factors"][j][rng.randrange(shape[j])][rng.randrange(R)] = -1
+        elif mut == "neg-weight":
+            c["weights"][rng.randrange(R)] = -1
+        elif mut == "empty-sparse":
+            c["vals"] = [0] * numel
+        elif mut == "maxiters0":
+            c["maxiters"] = 0
+        elif mut == "maxinner0":
+            c["maxinner"] = 0
+        elif mut == "bad-alg":
+            c["alg"] = rng.choice(["als", "MU2", ""])
+        return c
 
     @staticmethod
     def build(c):
@@ -1042,18 +1151,25 @@ class Validation(Family):
         return data, dj
 
     def evaluate(self, cases):
-        impls, reqs = [], []
+        impls, reqs, recs = [], [], []
         for c in cases:
             def f(c=c):
                 data, _ = self.build(c)
                 R = len(c["weights"])
                 g = ttb.ktensor([np.array(x, dtype=float).reshape(len(x), R) for x in c["factors"]],
                                 np.array(c["weights"], dtype=float))
-                ttb.cp_apr(data, c["rank"], algorithm=c["alg"], init=g, maxiters=c["maxiters"],
-                           maxinneriters=c["maxinner"], printitn=c.get("printitn", 0))
-                return True
-            with quiet():
+                M, _, _ = ttb.cp_apr(data, c["rank"], algorithm=c["alg"], init=g, maxiters=c["maxiters"],
+                                     maxinneriters=c["maxinner"], printitn=c.get("printitn", 0))
+                return {"shape": [int(np.asarray(x).shape[0]) for x in M.factor_matrices],
+                        "ranks": sorted({int(np.asarray(x).shape[1]) for x in M.factor_matrices}
+                                        | {int(np.asarray(M.weights).size)}),
+                        "nonneg": bool(np.all(np.asarray(M.weights) >= 0)
+                                       and all(np.all(np.asarray(x) >= 0) for x in M.factor_matrices))}
+            calls = []
+            with (recording("pqnr", [], calls, margins=False) if c["alg"] == "pqnr" else contextlib.nullcontext()), \
+                    quiet():
                 impls.append(call(f))
+            recs.append(calls)
             _, dj = self.build(c)
             reqs.append({"op": "c11_validate", "alg": c["alg"], "data": dj,
                          "init": {"weights": c["weights"], "factors": c["factors"]},
@@ -1062,28 +1178,36 @@ class Validation(Family):
                                  "kappatol": "1/10000000000", "inexact": True}})
         models = drive(reqs)
         out = []
-        for c, i, m in zip(cases, impls, models):
+        for c, i, m, calls in zip(cases, impls, models, recs):
             tags = [c["mut"], c["alg"] if c["alg"] in ALGS else "bad-alg", "sparse" if c["sparse"] else "dense",
-                    f"printitn{c.get('printitn', 0)}"]
+                    f"printitn{c.get('printitn', 0)}"] + ([c["how"]] if "how" in c else [])
             acc_i = "ok" in i
             acc_m = bool(m["accept"])
             valid_but = c["mut"] in ("one-way-dense", "empty-sparse") and not acc_i and not acc_m
-            if valid_but:
+            # the property's own clause on whatever is returned: a model of the DATA's shape and the requested rank,
+            # non-negative (independent of the model's verdict on the request)
+            wrong = ""
+            if acc_i:
+                r = i["ok"]
+                if r["shape"] != list(c["shape"]) or r["ranks"] != [c["rank"]]:
+                    wrong = (f"cp_apr returned a model of shape {r['shape']} with {r['ranks']} components for data of "
+                             f"shape {c['shape']} and requested rank {c['rank']} (guess of shape "
+                             f"{[len(x) for x in c['factors']]}, {len(c['weights'])} components)")
+                elif not r["nonneg"]:
+                    wrong = "cp_apr returned a model with a negative (or NaN) weight or factor entry"
+            if wrong:
+                out.append(Verdict("violation", wrong, i, m, None, tags + ["wrong-shape"], False))
+            elif valid_but:
                 # a count tensor the property covers; implementation (and the model that mirrors it) refuse it
                 kind = "a 1-way dense count tensor" if c["mut"] == "one-way-dense" else \
                     "a sparse count tensor without stored entry"
                 out.append(Verdict("violation", f"cp_apr raised {i.get('exc')} on {kind}: {i.get('msg')}", i, m, None,
                                    tags + ["reject"], False))
-            elif not acc_i and c["alg"] == "pqnr" and LBFGS_MSG in i.get("msg", "") and acc_m:
-                out.append(Verdict("violation", f"pqnr raised instead of returning: {i.get('msg')}", i, m, None,
-                                   tags + ["lbfgs-assert"], False))
-            elif acc_i != acc_m:
-                if acc_m:
-                    out.append(Verdict("violation", f"implementation raised {i.get('exc')}: {i.get('msg')} on a "
-                                       "request that passes the argument checks", i, m, None, tags, False))
-                else:
-                    out.append(Verdict("corr", "the implementation answers a request the model's checks reject",
-                                       i, m, None, tags, False))
+            elif not acc_i and acc_m:
+                out.append(raised_verdict({"alg": c["alg"], "opts": {}}, i, calls, tags))
+            elif acc_i and not acc_m:
+                out.append(Verdict("corr", "the implementation answers a request the model's checks reject",
+                                   i, m, None, tags, False))
             else:
                 out.append(Verdict("ok", "", None, None, None, tags + (["accept"] if acc_i else ["reject"]), acc_i))
         return out
